@@ -419,6 +419,9 @@ def run(ctx, config='rel-all'):
     # ---- R9 helpers, accessors, Drain iterator glue
     from . import helpers
     helpers.check_string(ctx, config, 'R9')
+    # ---- R10 a refused growth request (a panic or an Err in this crate, not an abort) never finds the bytes half written
+    from . import allocatomic
+    allocatomic.check(ctx, config, 'R10')
     # ---- R8 the exported format! macro, analysed on its expansion in a client probe
     if config == 'rel-all':
         from . import macros
